@@ -389,7 +389,7 @@ fn coq_call(c: &CallLog) -> String {
         })
         .collect();
     format!(
-        "{{| k_tokens := {}; k_pos := {}; k_cpos := {}; k_mask := {}; k_flag := {}; k_kv_in := {}; k_enc_in := {}; k_kv_out := {}; k_enc_out := [{}]; k_logits := {}; k_bad := {} |}}",
+        "(mkK {} {} {} {} ({}) {} {} {} [{}] {} {})",
         coq_list(&c.tokens),
         coq_pos(&c.pos),
         coq_pos(&c.cpos),
@@ -438,21 +438,21 @@ fn exec_line(line: &str) -> String {
                 g = g.with_prompt(p);
                 if call_seen && !p.is_empty() { chat = true; }
                 if call_seen { cleared = true; }
-                (format!("W {}", coq_list(p)), "RUnit".to_string())
+                (format!("OpW {}", coq_list(p)), "RUnit".to_string())
             }
             Op::A(p) => {
                 g.append_prompt(p);
                 if call_seen && !p.is_empty() { chat = true; }
-                (format!("A {}", coq_list(p)), "RUnit".to_string())
+                (format!("OpA {}", coq_list(p)), "RUnit".to_string())
             }
             Op::C => {
                 g.clear_prompt();
                 if call_seen { cleared = true; }
-                ("C".to_string(), "RUnit".to_string())
+                ("OpC".to_string(), "RUnit".to_string())
             }
             Op::P => {
                 let r = catch_unwind(AssertUnwindSafe(|| g.process_prompt()));
-                ("P".to_string(), match r {
+                ("OpP".to_string(), match r {
                     Ok(Ok(())) => "RUnit".to_string(),
                     Ok(Err(_)) => { failed = true; "RErr".to_string() }
                     Err(_) => { failed = true; "RPanic".to_string() }
@@ -461,7 +461,7 @@ fn exec_line(line: &str) -> String {
             Op::N(t) => {
                 mock.next_tok.set(*t);
                 let r = catch_unwind(AssertUnwindSafe(|| g.next()));
-                (format!("N {}", t), match r {
+                (format!("OpN {}", *t as usize % VOCAB), match r {
                     Ok(Some(Ok(tok))) => format!("RTok {}", tok),
                     Ok(Some(Err(_))) => { failed = true; "RErr".to_string() }
                     Ok(None) => { failed = true; "RPanic".to_string() },
@@ -471,7 +471,7 @@ fn exec_line(line: &str) -> String {
             Op::F => {
                 kill.set(true);
                 let r = catch_unwind(AssertUnwindSafe(|| g.next()));
-                ("F".to_string(), match r {
+                ("OpF".to_string(), match r {
                     Ok(Some(Ok(tok))) => format!("RTok {}", tok),
                     Ok(Some(Err(_))) => { failed = true; "RErr".to_string() }
                     Ok(None) => { failed = true; "RPanic".to_string() },
@@ -501,7 +501,7 @@ fn exec_line(line: &str) -> String {
             None => "None".to_string(),
         };
         steps.push(format!(
-            "({}, {{| o_call := {}; o_res := {}; o_filter := {}; o_prev := {}; o_prompt := {}; o_kvlen := {} |}})",
+            "({}, mkO ({}) ({}) ({}) {} {} ({}))",
             op_s, call_s, res, filt, coq_list(g.prev_tokens()), coq_list(g.prompt()), kvlen
         ));
     }
@@ -514,7 +514,7 @@ fn exec_line(line: &str) -> String {
     let n_dec = mock.dec_in.len();
     let n_enc = mock.enc_in.len();
     let term = format!(
-        "{{| c_nd := {}; c_ne := {}; c_flag := {}; c_steps := [{}] |}}",
+        "mkC {}%nat {}%nat {} [{}]",
         n_dec, n_enc, mock.id_flag.is_some(), steps.join(";")
     );
     format!("{}\t{}\t{}", tag, line, term)
